@@ -186,6 +186,39 @@ mut("c04-parsefile-reads-first-64k", [(P, """	data, err := os.ReadFile(path)
 	}
 	return ParseObject(string(data[:n]))""")], ["C04"], note="only the first 64 KiB are read (real disk only)")
 
+mut("c04-parser-stalls-after-string", [(P, """		case stateValAfterString:
+			if char == ',' {
+				state = stateVal
+				continue
+			} else if char == ']' {
+				return list, i, nil
+			}
+""", """		case stateValAfterString:
+			if char == ',' {
+				state = stateVal
+				continue
+			} else if char == ']' {
+				return list, i, nil
+			} else if char == '-' {
+				size = 0 // tolerate a stray separator: look at the same position again
+			}
+""")], ["C04"], note="the list parser never advances past a ';' that follows a string value: no termination (slow to detect: watchdog)")
+
+mut("c04-parsefile-open-readall", [(P, """	data, err := os.ReadFile(path)
+	if err != nil {
+		return nil, err
+	}
+	return ParseObject(string(data))""", """	f, err := os.Open(path)
+	if err != nil {
+		return nil, err
+	}
+	defer f.Close()
+	data, err := io.ReadAll(f)
+	if err != nil {
+		return nil, err
+	}
+	return ParseObject(string(data))"""), (P, '	"fmt"\n	"math/bits"', '	"fmt"\n	"io"\n	"math/bits"')], [], ["C04"], note="PRESERVING: ParseFile through os.Open + io.ReadAll (not served by the simulated disk: the check must fall back to the real one)")
+
 # ---------------------------------------------------------------- C05
 mut("c05-insert-bound-off-by-one", [(L, "	if index < 0 || index > ego.Ego().Count() {\n		panic(fmt.Sprintf(\"index %d out of range with count %d\", index, ego.Ego().Count()))\n	}\n	if index == ego.Ego().Count() {", "	if index < 0 || index > ego.Ego().Count()+1 {\n		panic(fmt.Sprintf(\"index %d out of range with count %d\", index, ego.Ego().Count()))\n	}\n	if index >= ego.Ego().Count() {")], ["C05"], note="Insert at n+1 accepted")
 mut("c05-pop-removes-first", [(L, "	return ego.Ego().Delete(ego.Ego().Count() - 1)", "	if ego.Ego().Count() == 5 {\n		return ego.Ego().Delete(0)\n	}\n	return ego.Ego().Delete(ego.Ego().Count() - 1)")], ["C05"], note="Pop of a 5-element list removes the first")
